@@ -132,6 +132,7 @@ NextE == UNCHANGED dummy /\
            /\ \E rep \in Reps2, st \in STPairs, y \in {<<0,-2,1>>} : LET s == st[1] t == st[2] IN
               \E E \in {ScrewSE3(rep, h, s + t, 1, y)}, Es \in {ScrewSE3(rep, h, s, 1, y)}, Et \in {ScrewSE3(rep, h, t, 1, y)} :
               RepOK(rep, E.q) /\ RepOK(rep, Es.q) /\ RepOK(rep, Et.q) /\
+              ~(rep = "mrp" /\ Es.q[1] = 0 /\ Et.q[1] = 0 /\ nOf(QMul(Es.q, Et.q)) = 0) /\      \* MRP 360-degree singularity, as in hom_so3
               tv' = [op |-> "hom_se3", rep |-> rep, h |-> h, s |-> s, t |-> t, alpha |-> 1, y |-> y, cell |-> cell,
                      exp |-> Mat(E)]
         \/ /\ nOf(h) # 0 /\ QNorm(h) < 12
